@@ -1,8 +1,10 @@
 import PgFdr.Model.Basic
+import PgFdr.Model.C03
 /-!
 Model of the rescue regrouping (property C04), executable on `String`s, Mathlib-free.
 
   grouping.py           RescuedGrouping._filter_peptide_list_by_score_cutoff      → `filterByCutoff`
+                        RescuedGrouping._calculate_rescue_score_cutoff            → `rescueScore` (the score; `10^(−score)` is the implementation's float)
                         RescuedGrouping.get_rescued_protein_groups                → `rescuedGroups`
                         RescuedGrouping.merge_with_rescued_protein_groups         → `rescueGroupsN`
                         RescuedGrouping.update_protein_groups                     → `secondPassGroups`
@@ -18,7 +20,8 @@ Model of the rescue regrouping (property C04), executable on `String`s, Mathlib-
 
 Parameters recorded from the implementation (DESIGN.md §4 "External calls become parameters"):
   * `N`     the subset grouping of the filtered peptide list (`generate_protein_groups`; property C03);
-            `rescueGroupsWith` takes it as a function instead;
+            `rescueGroupsWith` takes it as a function instead, and `rescueGroups` plugs in the model of
+            `Model/C03.lean` (the driver reports that model's grouping next to the recorded one);
   * `cuts`  the finite map `(sorted node list, s, t) ↦ cut` of `networkx … minimum_st_node_cut`;
   * `cutoff` the PEP threshold `10^(−min score)` computed in floating point by the implementation.
 
@@ -276,6 +279,23 @@ def mergeWithRescued {ι : Type} (N : Groups) (old : List (List String × ι)) (
           obsolete := (absorbed new old).map (fun g => g.1.map obsoleteName)
           obsoleteInfos := (absorbed new old).map (·.2) }
 
+/-! ### `_calculate_rescue_score_cutoff` -/
+
+/-- `min` of a non-empty list -/
+def minRat : List Rat → Option Rat
+  | [] => none
+  | a :: r =>
+    match minRat r with
+    | none => some a
+    | some m => some (if a ≤ m then a else m)
+
+/-- the protein score whose PEP equivalent `10^(−score)` becomes the cutoff: the worst (smallest)
+    score among the first-pass rows `(score, q-value)` with `q < threshold`; if there is none, the
+    worst score of all rows.  `none` when there are no rows (`min([])` raises in the code). -/
+def rescueScore (rows : List (Rat × Rat)) (threshold : Rat) : Option Rat :=
+  let acc := (rows.filter (fun r => decide (r.2 < threshold))).map (·.1)
+  if acc.isEmpty then minRat (rows.map (·.1)) else minRat acc
+
 /-- `rescue_protein_groups` after the cutoff has been computed: filter, regroup, merge.
     `N` must be the subset grouping of `filterByCutoff pil cutoff`. -/
 def rescueGroupsN {ι : Type} (N : Groups) (old : List (List String × ι)) (pil : List PepInfo) (cutoff : Rat)
@@ -286,6 +306,15 @@ def rescueGroupsN {ι : Type} (N : Groups) (old : List (List String × ι)) (pil
 def rescueGroupsWith {ι : Type} (subset : List PepInfo → Groups) (old : List (List String × ι))
     (pil : List PepInfo) (cutoff : Rat) (cuts : CutMap) : Except String (RescueOut ι) :=
   rescueGroupsN (subset (filterByCutoff pil cutoff)) old pil cutoff cuts
+
+/-- `ObservedPeptides.generate_protein_groups` on a peptide list: the subset grouping of `Model/C03.lean` -/
+def subsetOf (f : List PepInfo) : Groups := C03.subsetGroups (f.map (fun x => (x.peptide, x.proteins)))
+
+/-- the rescue stage as the pipeline calls it: `rescue_protein_groups` with the cutoff already computed;
+    nothing but the cut oracle is a recorded parameter -/
+def rescueGroups {ι : Type} (old : List (List String × ι)) (pil : List PepInfo) (cutoff : Rat)
+    (cuts : CutMap) : Except String (RescueOut ι) :=
+  rescueGroupsWith subsetOf old pil cutoff cuts
 
 /-- `update_protein_groups`: the placeholders are appended for the second competition -/
 def secondPassGroups {ι : Type} (out : RescueOut ι) : Groups := out.groups ++ out.obsolete
